@@ -15,7 +15,7 @@ ARMS = {"C04": (0.8, 0.2), "C05": (0.8, 0.2), "C06": (0.4, 0.6), "C07": (0.5, 0.
 
 TIERS = {
     # swarm definitions, capacities per definition, histories per profile, miri histories
-    "quick": dict(swarm=6, caps=2, runs=40000, miri=96, miri_defs=8),
+    "quick": dict(swarm=12, caps=2, runs=40000, miri=96, miri_defs=8),
     "thorough": dict(swarm=85, caps=3, runs=3000000, miri=1600, miri_defs=24),
 }
 
